@@ -7,6 +7,7 @@ CONSTANTS
   MaxP = 0
   MaxTok = 1
   MaxClock = 0
+  Cancel = "timeout"
   Atomic = TRUE
 INVARIANTS SemSafe NoWedge RateBound
 CHECK_DEADLOCK FALSE
